@@ -196,6 +196,7 @@ func (e *Expr) Eval(ctx *Ctx) (res Value, err error) {
 			for (!b && curt.flag&scIfFalse == scIfFalse) ||
 				(b && curt.flag&scIfTrue == scIfTrue) {
 				i = curt.scIdx
+				verifStep(ctx, e, 4, i, osTop, len(os))
 				if i == -1 {
 					return
 				}
@@ -295,6 +296,7 @@ func (e *Expr) TryEval(ctx *Ctx) (res Value, err error) {
 		for matchesShortCircuit(res, curt) {
 			// jump to parent node
 			curt, i = parentNode(e, i)
+			verifStep(ctx, e, 6, i, osTop, len(os))
 			if i == -1 {
 				return
 			}
